@@ -134,12 +134,12 @@ def check(an: Analysis) -> None:
                     c = an.callee(f, e)
                     if c == "asyncio.current_task":
                         return object() if task_present else None
-                    if isinstance(e.func, ast.Attribute) and "call:asyncio.current_task" in deps.of(e.func.value):
+                    if isinstance(e.func, ast.Attribute) and "call:asyncio.current_task" in deps.origins(e.func.value):
                         if e.func.attr == "cancelling":
                             return cancelling
                         if e.func.attr in ("cancelled", "done"):
                             return False  # API_FACT 1
-                if isinstance(e, ast.Name) and "call:asyncio.current_task" in deps.of(e) and not deps.of(e) - {"call:asyncio.current_task"}:
+                if isinstance(e, ast.Name) and deps.origins(e) == {"call:asyncio.current_task"}:
                     return object() if task_present else None
                 return NOVALUE
 
@@ -168,7 +168,7 @@ def check(an: Analysis) -> None:
     g = an.cfg(f)
     deps3 = Deps(prog, f)
     ob = an.ob("C07.3", "K1", "ctx.cancel calls .cancel() on asyncio.current_task() when there is one and raises otherwise", ["context.access.ctx.cancel"])
-    cancels = [n for n in g.nodes if n.kind == "call" and isinstance(n.ast.func, ast.Attribute) and n.ast.func.attr == "cancel" and "call:asyncio.current_task" in deps3.of(n.ast.func.value)]  # type: ignore[union-attr]
+    cancels = [n for n in g.nodes if n.kind == "call" and isinstance(n.ast.func, ast.Attribute) and n.ast.func.attr == "cancel" and "call:asyncio.current_task" in deps3.origins(n.ast.func.value)]  # type: ignore[union-attr]
     if not cancels:
         ob.fail(f, None, "ctx.cancel never cancels the current task")
     else:
@@ -179,7 +179,7 @@ def check(an: Analysis) -> None:
             def env(e: ast.AST):
                 if isinstance(e, ast.Call) and an.callee(f, e) == "asyncio.current_task":
                     return object() if present else None
-                if isinstance(e, ast.Name) and deps3.of(e) == {"call:asyncio.current_task"}:
+                if isinstance(e, ast.Name) and deps3.origins(e) == {"call:asyncio.current_task"}:
                     return object() if present else None
                 return NOVALUE
 
